@@ -42,7 +42,7 @@ def judge_req(ctx, cases, nontrivial, ex):
             pending.append((c, what))
         elif ctx.cov["evaluations"] % 1700 == 1:
             ctx.sample({"pa": v["pa"], "pv": v["pv"], "observed": {k: o[k] for k in ("invoked", "status", "errname")}})
-    ex.prepare([c["v"] for c, _ in pending])
+    hc.prepare_explanations(ex, cases, [c for c, _ in pending])
     hc.validate_cases(ctx, cases, "C04", skip_ids={c["id"] for c, _ in pending}, ex=ex)
     for c, what in pending:
         v, o = c["v"], c["obs"]
@@ -75,7 +75,7 @@ def judge_res(ctx, cases, nontrivial, ex):
             what = "client-refused-valid-result:%s/%s" % (o["cerr"], o.get("cerr_name"))
         if what:
             pending.append((c, what))
-    ex.prepare([c["v"] for c, _ in pending])
+    hc.prepare_explanations(ex, cases, [c for c, _ in pending])
     hc.validate_cases(ctx, cases, "C04", skip_ids={c["id"] for c, _ in pending}, ex=ex)
     for c, what in pending:
         v, o = c["v"], c["obs"]
@@ -94,21 +94,25 @@ def run(ctx):
                        "distinct = canonical JSON of (shapes, values)")
     ctx.assumptions += ["constraints apply to present values (JSON-Schema semantics); an unset optional attribute is valid",
                         "a zero value in a defaulted field may be read as unset: such requests are neither required to run nor to be rejected"]
-    for d in ("validate.absent_collection_length", "param.empty_string_is_absent", "validate.map_value_required_unchecked"):
-        ctx.mc_expect_violation("mc/MC_HTTPTransport", consts={"Deviations": '{"%s"}' % d}, label="MC dev " + d)
-    ctx.mc_expect_violation("mc/MC_HTTPTransport", consts={"Family": '"res"', "Deviations": '{"validate.map_value_required_unchecked"}'}, label="MC dev validate.map_value_required_unchecked (client side)")
     frac = float(os.environ.get("VERIF_FRAC") or (0.06 if quick else 1.0))
     nontrivial = set()
-    vectors = hc.sample_shapes(hc.gen_vectors(ctx, "req", 1, 1), frac, ctx.seed)
-    cases, pl = hc.run_family(ctx, "req", vectors)
+
+    def with_cookie():
+        # a parameter together with a cookie (the decoders share one error variable)
+        allv = hc.gen_vectors(ctx, "req", 1, 1, label="Gen req 1x1 (for pairs)")
+        return hc.run_family(ctx, "req", hc.combine_cases(ctx, allv, 60 if quick else 1500, ctx.seed, mode="withcookie"), name="gen-req-pairs")
+    guards, f1, f2, f3 = hc.side_by_side(ctx, [
+        lambda: hc.expect_violations(ctx, [({"Deviations": '{"%s"}' % d}, "MC dev " + d) for d in ("validate.absent_collection_length", "param.empty_string_is_absent", "validate.map_value_required_unchecked")]
+                                     + [({"Family": '"res"', "Deviations": '{"validate.map_value_required_unchecked"}'}, "MC dev validate.map_value_required_unchecked (client side)")]),
+        lambda: hc.run_family(ctx, "req", hc.sample_shapes(hc.gen_vectors(ctx, "req", 1, 1), frac, ctx.seed)),
+        lambda: hc.run_family(ctx, "res", hc.sample_shapes(hc.gen_vectors(ctx, "res", 1, 1), frac, ctx.seed)),
+        with_cookie])
+    guards.result()
+    cases, pl = f1.result()
     judge_req(ctx, cases, nontrivial, hc.Explainer(ctx, "req", 1, 1))
-    vectors = hc.sample_shapes(hc.gen_vectors(ctx, "res", 1, 1), frac, ctx.seed)
-    cases2, pl2 = hc.run_family(ctx, "res", vectors)
+    cases2, pl2 = f2.result()
     judge_res(ctx, cases2, nontrivial, hc.Explainer(ctx, "res", 1, 1))
-    # a parameter together with a cookie (the decoders share one error variable)
-    allv = hc.gen_vectors(ctx, "req", 1, 1, label="Gen req 1x1 (for pairs)")
-    wc = hc.combine_cases(ctx, allv, 60 if quick else 1500, ctx.seed, mode="withcookie")
-    casesw, plw = hc.run_family(ctx, "req", wc)
+    casesw, plw = f3.result()
     judge_req(ctx, casesw, nontrivial, hc.Explainer(ctx, "req", 2, 1))
     ctx.cov["param_with_cookie_pairs"] = len(casesw)
     if not quick:
